@@ -396,6 +396,16 @@ def step (cfg : Cfg) (s : State) (t : Nat) : Option State :=
 
 def enabled (cfg : Cfg) (s : State) (t : Nat) : Bool := (step cfg s t).isSome
 
+/-- what the next primitive action of `t` raises, if anything -/
+def stepRaised (cfg : Cfg) (s : State) (t : Nat) : Option Exc :=
+  match s.ths[t]? with
+  | none => none
+  | some th => match (cfg.code t)[th.pc]? with
+    | none => none
+    | some ins => match exec cfg (cfg.code t) s.sh th t ins.op with
+      | some e => e.raised
+      | none => none
+
 def tids (s : State) : List Nat := List.range s.ths.length
 
 def threadDone (cfg : Cfg) (s : State) (t : Nat) : Bool :=
@@ -458,7 +468,7 @@ structure Protocol where
   deriving DecidableEq, Repr, Inhabited
 
 inductive Method
-  | contains | getItem | setItem | delItem | len | documents | isEmpty
+  | contains | getItem | setItem | delItem | discard | len | documents | isEmpty
   | expireDocuments | removeExpired | createIndex | createIndexTtl | dropIndex
   deriving DecidableEq, Repr, Inhabited
 
@@ -588,6 +598,9 @@ def referenceDiscipline : Discipline :=
     (getItem, [.call removeExpired false, .enter false, .getItem docs false, .leave false]),
     (setItem, [.enter true, .setItem docs false, .leave true]),
     (delItem, [.enter true, .delItem docs false, .leave true]),
+    -- `discard` (what `Collection._delete` removes a document with since a0040b0): a pop that
+    -- tolerates a key that is gone and tells whether it removed something
+    (discard, [.enter true, .popItem docs false, .leave true]),
     (len, [.call removeExpired false, .enter false, .read docs, .leave false]),
     (documents, [.call removeExpired false, .enter false, .forBegin docs, .yield, .forEnd docs,
                  .leave false]),
